@@ -33,11 +33,14 @@ theorem owned_mkdirAll_prefix_obj (fs : FS) {p : Path} (hp : p <+: objPath cfg k
 theorem owned_deleteNullVersion (fs : FS) : WritesOwned cfg key (deleteNullVersion cfg fs key) := by
   unfold deleteNullVersion
   dsimp only
+  have hvp : verDirOf cfg key ++ ["null"] = "V" :: (cfg.bucket :: hashDirs key ++ ["null"]) := rfl
   split
-  · intro s hs q hq
-    simp only [List.mem_singleton] at hs; subst hs
-    simp only [Step.writes, List.mem_singleton] at hq; subst hq
-    exact owned_V ⟨_, rfl⟩
+  · apply WritesIn.append
+    · intro s hs q hq
+      simp only [List.mem_singleton] at hs; subst hs
+      simp only [Step.writes, List.mem_singleton] at hq; subst hq
+      exact owned_V ⟨_, rfl⟩
+    · exact WritesOwned.of (writes_deleteAttrs cfg _ _) (fun q h => by rw [hvp] at h; exact owned_side_V (Or.inr h))
   · exact WritesIn.nil _
 
 theorem owned_archive (fs : FS) : WritesOwned cfg key (archive cfg rq fs key) := by
